@@ -67,6 +67,8 @@ func simpleDoc(r *sim.Rand) pdfw.DocSpec {
 	if r.Pct(20) {
 		sp.TextOps = 1
 	}
+	sp.BlankPages = r.Pct(30)
+	sp.Headings = r.Pct(40)
 	if r.Pct(35) {
 		// several fonts that differ only in their encoding, written inline and mapped to the
 		// same resource names differently on every page: per-page results then only compose
